@@ -591,6 +591,7 @@ func fntRunE2E(tc *fntE2ECase) (res fntE2EResult) {
 	}
 
 	// what was shown (glyphs the font could not encode are skipped by the builder)
+	nocidFont := map[int]bool{} // fonts of the page in which a glyph without CID was written as CID 0
 	var expected []fntGlyphRec
 	var strs []pdf.String // per show: the codes of the shown glyphs
 	var strFont []int
@@ -623,6 +624,7 @@ func fntRunE2E(tc *fntE2ECase) (res fntE2EResult) {
 					nocid = c.CID == 0
 				}
 				if nocid {
+					nocidFont[sh.font] = true
 					viol("glyph-without-cid-shown-as-notdef", "%s: glyph %d (%q) has no CID in the character collection of the font's GID->CID mapping; Encode succeeds and writes the code of CID 0, the page shows .notdef", kinds[sh.font].label, g.GID, g.Text)
 				}
 			}
@@ -756,8 +758,12 @@ func fntRunE2E(tc *fntE2ECase) (res fntE2EResult) {
 			viol("truncated-code-poisons-cache", "%s PDF %s: glyph %d (%q, width %.5f) has code value %#x, the value of an incomplete code that ends an earlier string of the page; it reads back as (w=%.5f,%q,CID %d): the extracted font caches decoded codes by value only", k.label, tc.Version, e.gid, e.text, e.width, e.code, c.Width, c.Text, c.CID)
 			continue
 		}
-		if e.gid == 0 && ros && k.identity {
-			// see above: the width of CID 0; the text is checked below
+		if e.gid == 0 && ros && (k.identity || nocidFont[e.font]) {
+			// see above: the width of CID 0; the text is checked below.  With the UTF-8 encoder the
+			// width is recorded per code, but W is per CID: when the page also shows a glyph WITHOUT
+			// CID in this font (reported as glyph-without-cid-shown-as-notdef), that glyph is written
+			// as CID 0 with its own width and W[0] holds whichever of the two widths the map iteration
+			// put last — the width of glyph 0 is a consequence of that finding, not compared
 		} else if math.Abs(c.Width-e.width) > 0.0005+1e-9 && strings.HasPrefix(k.label, "W/type3-fm") && !e.raw {
 			viol("type3-width-rounded", "%s PDF %s: glyph %d (%q) has advance %.5f em (d0 width x FontMatrix), the /Widths entry read back gives %.5f em: the width was rounded to a whole number of Type 3 glyph-space units", k.label, tc.Version, e.gid, e.text, e.width, c.Width)
 		} else if math.Abs(c.Width-e.width) > 0.0005+1e-9 {
